@@ -191,6 +191,7 @@ pub fn bases(win: bool, tier: &str, seed: u64) -> Vec<Vec<u8>> {
     for _ in 0..(if t { 300 } else { 50 }) {
         v.push(random_path(&mut rng, win));
     }
+    v.extend(extras());
     dedup_keep_order(v)
 }
 
@@ -246,6 +247,7 @@ pub fn utf8_dom(tier: &str, seed: u64) -> Vec<Vec<u8>> {
         }
         v.push(x);
     }
+    v.extend(extras().into_iter().filter(|x| std::str::from_utf8(x).is_ok()));
     dedup_keep_order(v)
 }
 
@@ -316,6 +318,37 @@ pub fn long_inputs(win: bool) -> Vec<Vec<u8>> {
         }
     }
     v
+}
+
+/// `.`/`..`/name mixes at the component level (all short ones, long random ones)
+pub fn norm_extra(win: bool, tier: &str, seed: u64) -> Vec<Vec<u8>> {
+    let t = tier_is_thorough(tier);
+    let mut v: Vec<Vec<u8>> = Vec::new();
+    let sep: &[u8] = if win { b"\\" } else { b"/" };
+    let toks: Vec<&[u8]> = vec![sep, b"..", b".", b"a"];
+    let bodies = strings(&toks, if t { 7 } else { 6 });
+    let pre: Vec<&[u8]> = if win { vec![b"", b"C:", br"\\s\h", br"\\?\C:", br"\\?\pics", br"\\.\dev", br"\\?\UNC\s\h"] } else { vec![b""] };
+    for p in &pre {
+        for b in &bodies {
+            let mut x = p.to_vec();
+            x.extend_from_slice(b);
+            v.push(x);
+        }
+    }
+    let mut rng = Rng::new(seed ^ 0x91);
+    for _ in 0..(if t { 2000 } else { 200 }) {
+        let mut x: Vec<u8> = if win { rng.pick::<&[u8]>(WIN_SEEDS).to_vec() } else { Vec::new() };
+        if rng.chance(1, 2) {
+            x.push(if win { b'\\' } else { b'/' });
+        }
+        let ncomp = rng.below(if t { 200 } else { 40 });
+        for _ in 0..ncomp {
+            x.extend_from_slice(*rng.pick::<&[u8]>(&[&b"."[..], b"..", b"..", b"a", b"bc", b"d.e"]));
+            x.push(if win { *rng.pick(b"\\\\/") } else { b'/' });
+        }
+        v.push(x);
+    }
+    dedup_keep_order(v)
 }
 
 pub fn gen(prop: &str, tier: &str, seed: u64) -> Vec<String> {
@@ -422,21 +455,7 @@ pub fn gen(prop: &str, tier: &str, seed: u64) -> Vec<String> {
             for win in [false, true] {
                 let d = if win { dom_win(tier, seed) } else { dom_unix(tier, seed) };
                 fam_unary("norm", win, &d, &mut out);
-                let mut rng = Rng::new(seed ^ 0x91);
-                let mut long: Vec<Vec<u8>> = Vec::new();
-                for _ in 0..(if t { 2000 } else { 200 }) {
-                    let mut x: Vec<u8> = if win { rng.pick(WIN_SEEDS).to_vec() } else { Vec::new() };
-                    if rng.chance(1, 2) {
-                        x.push(if win { b'\\' } else { b'/' });
-                    }
-                    let ncomp = rng.below(if t { 200 } else { 40 });
-                    for _ in 0..ncomp {
-                        x.extend_from_slice(*rng.pick(&[&b"."[..], b"..", b"..", b"a", b"bc", b"d.e"]));
-                        x.push(if win { *rng.pick(b"\\\\/") } else { b'/' });
-                    }
-                    long.push(x);
-                }
-                fam_unary("norm", win, &long, &mut out);
+                fam_unary("norm", win, &norm_extra(win, tier, seed), &mut out);
             }
         }
         "C12" => {
